@@ -80,8 +80,9 @@ func (b *bb) runBatch(kind, ver string, size uint, nocopy bool, timeout time.Dur
 	inputs [][]int, pause func(i int)) (outs []outRec, offered, accepted []time.Time, ok bool) {
 	var output <-chan []int
 	var release func()
-	var feed func(i int, xs []int)
+	var feed func(i int, xs []int) bool
 	var closeIn func()
+	abort := make(chan struct{}) // closed when the output was closed although the producer has not finished
 	switch {
 	case kind == "join" && ver == "v2":
 		in := make(chan int, inCap)
@@ -91,10 +92,15 @@ func (b *bb) runBatch(kind, ver string, size uint, nocopy bool, timeout time.Dur
 			return nil, nil, nil, false
 		}
 		output, release = d.Output(), d.Release
-		feed = func(_ int, xs []int) {
+		feed = func(_ int, xs []int) bool {
 			for _, x := range xs {
-				in <- x
+				select {
+				case in <- x:
+				case <-abort:
+					return false
+				}
 			}
+			return true
 		}
 		closeIn = func() { close(in) }
 	case kind == "unite":
@@ -105,7 +111,14 @@ func (b *bb) runBatch(kind, ver string, size uint, nocopy bool, timeout time.Dur
 			return nil, nil, nil, false
 		}
 		output, release = d.Output(), d.Release
-		feed = func(_ int, xs []int) { in <- xs }
+		feed = func(_ int, xs []int) bool {
+			select {
+			case in <- xs:
+				return true
+			case <-abort:
+				return false
+			}
+		}
 		closeIn = func() { close(in) }
 	default: // v1 join
 		in := make(chan int, inCap)
@@ -120,10 +133,15 @@ func (b *bb) runBatch(kind, ver string, size uint, nocopy bool, timeout time.Dur
 		}
 		output = d.Output()
 		release = func() { released <- struct{}{} }
-		feed = func(_ int, xs []int) {
+		feed = func(_ int, xs []int) bool {
 			for _, x := range xs {
-				in <- x
+				select {
+				case in <- x:
+				case <-abort:
+					return false
+				}
 			}
+			return true
 		}
 		closeIn = func() { close(in) }
 	}
@@ -155,7 +173,9 @@ func (b *bb) runBatch(kind, ver string, size uint, nocopy bool, timeout time.Dur
 				pause(i)
 			}
 			offered[i] = time.Now()
-			feed(i, xs)
+			if !feed(i, xs) {
+				return
+			}
 			accepted[i] = time.Now()
 			if !nocopy {
 				for _, prev := range inputs[:i+1] {
@@ -169,7 +189,35 @@ func (b *bb) runBatch(kind, ver string, size uint, nocopy bool, timeout time.Dur
 		_ = sum
 	}()
 	defer func() {
-		<-prodDone
+		select {
+		case <-prodDone:
+		case <-time.After(3 * time.Second):
+			// the discipline stopped reading its input although the input was never closed
+			n := 0
+			for i := range accepted {
+				if !accepted[i].IsZero() {
+					n++
+				}
+			}
+			var cur []int
+			if n < len(inputs) {
+				cur = inputs[n]
+			}
+			b.fail("C03 %s %s nocopy=%v timeout=%v: the output was closed although the input is still open - the producer is blocked writing input slice %d of %d (%v), which is never read; delivered so far: %s",
+				kind, ver, nocopy, timeout, n, len(inputs), cur, slicesStr(func() [][]int {
+					var d [][]int
+					for _, o := range outs {
+						d = append(d, o.data)
+					}
+					return d
+				}()))
+			if kind == "unite" {
+				b.fail("C11 unite %s nocopy=%v timeout=%v: input slices %d.. of %v appear in no output slice: the discipline stopped reading an open input", ver, nocopy, timeout, n, inputs)
+			}
+			close(abort)
+			<-prodDone
+			ok = false
+		}
 		// (in no-copy mode the consumer of this harness only reads what it receives)
 		for i, xs := range inputs {
 			if !reflect.DeepEqual(xs, saved[i]) && !(len(xs) == 0 && len(saved[i]) == 0) {
@@ -439,6 +487,91 @@ func (b *bb) scenarioJoin() {
 	}
 
 	b.backpressure()
+
+	// (3a) v1, copy mode: Stop / cancel while the producer keeps writing and the consumer keeps
+	// receiving.  Every slice the consumer received - before or after the stop request - is its
+	// own: it is never modified afterwards and shares no memory with another one (C08); together
+	// they continue the written sequence in order, without duplicates (C16)
+	for attempt := 0; attempt < 12; attempt++ {
+		before := b.fails()
+		in := make(chan int, 64)
+		ctx, cancel := context.WithCancel(context.Background())
+		d, err := j1.New(j1.Opts[int]{Ctx: ctx, Input: in, JoinSize: 2, Timeout: 0})
+		if err != nil {
+			cancel()
+			continue
+		}
+		stopProd := make(chan struct{})
+		go func() {
+			for i := 0; ; i++ {
+				select {
+				case in <- i:
+				case <-stopProd:
+					return
+				}
+			}
+		}()
+		var kept, copies [][]int
+		collected := make(chan struct{})
+		nBefore := 3 + r.Intn(6)
+		reached := make(chan struct{})
+		go func() {
+			defer close(collected)
+			for sl := range d.Output() {
+				kept = append(kept, sl)
+				copies = append(copies, append([]int(nil), sl...))
+				if len(kept) == nBefore {
+					close(reached)
+				}
+			}
+		}()
+		select {
+		case <-reached:
+		case <-time.After(5 * time.Second):
+		}
+		byCtx := r.Intn(2) == 0
+		ret := make(chan struct{})
+		go func() {
+			if byCtx {
+				cancel()
+			}
+			d.Stop()
+			close(ret)
+		}()
+		select {
+		case <-ret:
+		case <-time.After(5 * time.Second):
+			b.fail("C16 v1 join (copy mode): Stop() did not return within 5s")
+		}
+		select {
+		case <-collected:
+			last := -1
+			for i, sl := range kept {
+				if !reflect.DeepEqual(sl, copies[i]) {
+					b.fail("C08 v1 join copy mode: slice %d delivered around Stop()/cancel was modified after delivery: %v -> %v", i, copies[i], sl)
+					break
+				}
+				for j := 0; j < i; j++ {
+					if len(sl) > 0 && len(kept[j]) > 0 && &sl[0] == &kept[j][0] {
+						b.fail("C08 v1 join copy mode: slices %d and %d delivered around Stop()/cancel share memory (%v, %v)", j, i, copies[j], copies[i])
+					}
+				}
+				for _, x := range copies[i] {
+					if x <= last {
+						b.fail("C16 v1 join copy mode: delivered %v after %d: not an in-order, duplicate-free subsequence of what was written", copies[i], last)
+						break
+					}
+					last = x
+				}
+			}
+		case <-time.After(5 * time.Second):
+			b.fail("C16 v1 join (copy mode): the output was not closed within 5s after Stop() returned")
+		}
+		close(stopProd)
+		cancel()
+		b.leakProbe("Stop of v1 join (copy mode, consumer keeps receiving)")
+		b.note("join", "v1-stop-copy", before)
+	}
 
 	// (3) v1: Stop while the consumer does not read / holds a slice
 	for attempt := 0; attempt < 4; attempt++ {
